@@ -459,6 +459,8 @@ def run(tier):
         if r.random() < 0.4:
             tree = blockify(r, tree)
         g = {'g0': r.choice(vals), 'g1': r.choice(vals), 'g2': r.choice(vals), 'depth': interp.vflt(0)}
+        if r.random() < 0.3:
+            g['fn0'] = r.choice(vals)          # a host global named like a script function: the function statement replaces it
         progs.append(('random', tree, g))
     for k in range(60 if tier == 'quick' else 600):
         progs.append(('nested-fn', nested_fn_program(r, k), {'g1': r.choice(vals)}))
